@@ -4,7 +4,8 @@ import ScVerif.C20.DrvVending
 import ScVerif.C20.DrvSmall
 import ScVerif.C20.DrvFan
 import ScVerif.C20.DrvPub
-/-! Driver handler for C20: one op prefix per model (`par.`, `vend.`, `mode.`, `el.`, `meter.`, `fan.`, `pub.`). -/
+import ScVerif.C20.DrvConfig
+/-! Driver handler for C20: one op prefix per model (`par.`, `vend.`, `mode.`, `el.`, `meter.`, `fan.`, `pub.`) plus `cfg.` (option plumbing of all of them). -/
 namespace ScVerif.C20
 
 def handle (toks : List String) : String :=
@@ -19,6 +20,7 @@ def handle (toks : List String) : String :=
       else if op.startsWith "meter." then Meter.handle? toks
       else if op.startsWith "fan." then FanSpeed.handle? toks
       else if op.startsWith "pub." then Publication.handle? toks
+      else if op.startsWith "cfg." then Config.handle? toks
       else none
   match r with
   | some s => s
